@@ -1,9 +1,7 @@
 """C01 -- see DESIGN.md section 5.  Deductive targets are added below the bounded import."""
 PROP = "C01"
 LEVEL = "other"
-EXPLANATION = "under construction: bounded run-time contract checks on the real code; deductive obligations are being added"
-UNDER_CONSTRUCTION = True
-NOT_APPLICABLE = "check under construction in this round (see DESIGN.md section 5 for the plan); not claimed yet"
+EXPLANATION = 'bounded stand-in: generated formats x assignments x spellings parsed (strict and lenient) on the real parser and compared with the intended assignment; access agreement of Args; deductive obligations on the parser are being added'
 TARGETS = []
 LEMMAS = []
 try:
